@@ -123,6 +123,17 @@ Theorem C04_eager_check_exact_refuted :
 Proof. exact eager_check_exact_refuted. Qed.
 Print Assumptions C04_eager_check_exact_refuted.
 
+(* KNOWN DEFECT (C04-unbound-stepwise-leaf), masked by the previous one on the unchanged tree *)
+Theorem C04_unbound_stepwise_leaf_refuted :
+  let c := stepwise_unshadowed in
+  let a := [VAtom 900] in
+  let k := [(3%N, VAtom 5)] in
+  effective_sig c = init_sig c /\ passes_target a k = false
+  /\ accepted (new_partial c true a k)
+  /\ forall n' keys', call_binds c (1 + length a + n') (keys_of k ++ keys') = false.
+Proof. exact unbound_stepwise_leaf_refuted. Qed.
+Print Assumptions C04_unbound_stepwise_leaf_refuted.
+
 (* ---- non-vacuity: concrete states meeting the hypotheses ------------------------------------- *)
 Definition ex_target : pent := (0%N, false).
 (* class D(PoolDecorator): def __init__(self, target, a, b=.., *, c, **kwargs) *)
